@@ -31,11 +31,11 @@ TO_POOL = ['BB', 'SC1', 'SC2', 'SC3']
 EXTRA_NODE_NAMES = ['X1', 'X2', 'H9', 'VS']
 BLOCK_NAMES = ['ALA', 'GLY', 'LYS']
 MOD_NAMES = ['C-ter', 'N-ter']
-NODE_ATTRS = [None, None, {'element': 'H'}, {'atype': 'P5', 'charge': -1}, {'flag': True}]
+NODE_ATTRS = [None, None, {'element': 'H'}, {'atype': 'P5', 'charge': -1}, {'flag': True}, {'resname': 'OVR', 'element': 'X'}]
 EDGE_ATTRS = [None, None, None, {'order': 2}, {'kind': 'x'}]
 ID_ATTRS = [None, None, {'chain': 'A'}, {'insertion_code': 'B'}]
-MACRO_VALUES = ['ffa', 'ffb', 'BB', 'CA', 'N', 'SC1', '2', 'X1']
-FFS = {'from': 'ffa', 'to': 'ffb'}
+MACRO_VALUES = ['aa_ff', 'cg_ff', 'BB', 'CA', 'N', 'SC1', '2', 'X1']
+FFS = {'from': 'aa_ff', 'to': 'cg_ff'}
 
 
 # ---------------------------------------------------------------------------
@@ -73,8 +73,8 @@ def _universe():
             'atoms': st.lists(st.sampled_from(pool), min_size=lo, max_size=hi, unique=True),
             'edges': st.integers(0, 255)}) for n in names})
     return st.fixed_dictionaries({
-        'ffa': st.fixed_dictionaries({'blocks': blocks(FROM_POOL, BLOCK_NAMES, 2, 5), 'mods': blocks(FROM_POOL, MOD_NAMES, 1, 4)}),
-        'ffb': st.fixed_dictionaries({'blocks': blocks(TO_POOL, BLOCK_NAMES, 1, 3), 'mods': blocks(TO_POOL, MOD_NAMES, 1, 2)}),
+        'aa_ff': st.fixed_dictionaries({'blocks': blocks(FROM_POOL, BLOCK_NAMES, 2, 5), 'mods': blocks(FROM_POOL, MOD_NAMES, 1, 4)}),
+        'cg_ff': st.fixed_dictionaries({'blocks': blocks(TO_POOL, BLOCK_NAMES, 1, 3), 'mods': blocks(TO_POOL, MOD_NAMES, 1, 2)}),
     })
 
 
@@ -131,7 +131,7 @@ def assemble(raw):
                     attrs = rid['attrs'] if not rid['fetch'] else None
                 ids.append({'ident': ident, 'fetch': rid['fetch'], 'resname': resname, 'resid': resid, 'style': rid['style'],
                             'bare': bare, 'attrs': attrs,
-                            'atoms': list(universe[ffname][kind][resname]['atoms']) if rid['fetch'] else []})
+                            'atoms': list(universe[ffname][kind][resname]['atoms']) if rid['fetch'] else [], 'hidden': []})
             # identifiers must be unique per direction
             seen = set()
             ids = [i for i in ids if not (i['ident'] in seen or seen.add(i['ident']))]
@@ -149,9 +149,14 @@ def assemble(raw):
             for rn in rs['nodes']:
                 idx = rn['id'] % len(ids)
                 name = EXTRA_NODE_NAMES[rn['name']]
-                if name in ids[idx]['atoms']:
+                if name in ids[idx]['atoms'] or name in ids[idx]['hidden']:
                     continue
-                ids[idx]['atoms'].append(name)
+                if rn['attrs'] and 'resname' in rn['attrs']:
+                    # "Atom attributes take precedence" over those of the identifier: such a node can no longer be addressed
+                    # through its identifier, so nothing refers to it afterwards
+                    ids[idx]['hidden'].append(name)
+                else:
+                    ids[idx]['atoms'].append(name)
                 nodes.append({'id': idx, 'name': name, 'attrs': rn['attrs']})
             atoms = [[i, a] for i, ident in enumerate(ids) for a in ident['atoms']]
             edges = []
@@ -546,6 +551,8 @@ def classify(case, records):
                 classes.add('two-fetched-blocks')
             if side['nodes']:
                 classes.add('extra-nodes')
+            if direction == 'to' and any(n['attrs'] and 'resname' in n['attrs'] for n in side['nodes']):
+                classes.add('node-attribute-overrides-identifier')
             if side['edges']:
                 classes.add('extra-edges')
         if m['refs']:
@@ -591,8 +598,8 @@ def run_model(case):
 # ---------------------------------------------------------------------------
 # faults
 
-FAULTS = ['unknown-section', 'unknown-subsection', 'content-under-top-header', 'old-style-molecule-section',
-          'undefined-atom', 'undefined-identifier', 'undefined-block', 'unknown-force-field', 'duplicate-node-referenced',
+FAULTS = ['undefined-atom', 'duplicate-node-referenced', 'unknown-subsection', 'unknown-section', 'content-under-top-header',
+          'old-style-molecule-section', 'undefined-identifier', 'undefined-block', 'unknown-force-field',
           'unbalanced-open', 'unbalanced-close', 'too-few-tokens', 'reference-extra-token', 'non-numeric-weight',
           'header-unterminated']
 
@@ -626,7 +633,7 @@ def inject(case, fault, pos):
         return '\n'.join(lines[:i + 1] + new + lines[i + 1:]), i + 1
     if fault == 'content-under-top-header':
         i = pick([k for k, r in enumerate(records) if r['kind'] == 'header' and r.get('top') and r['sec'] != 'macros'])
-        lines.insert(i + 1, 'ffa')
+        lines.insert(i + 1, 'aa_ff')
         return '\n'.join(lines), i + 1
     if fault == 'old-style-molecule-section':
         i = pos % (len(lines) + 1)
@@ -840,12 +847,13 @@ RULE_TEXT = ('mapping-model: abstract .mapping files with 1-3 block/modification
              'mapping-doc-example: the literal example of the documentation.')
 
 PARTS = [
-    Part('mapping-model', run_model, strategy=file_strategy, examples={'quick': 1000, 'thorough': 40000},
+    Part('mapping-model', run_model, strategy=file_strategy, examples={'quick': 1000, 'thorough': 30000},
          floors={'several-mappings': 0.3, 'shorthand-fetched': 0.3, 'longhand-fetched': 0.15, 'longhand-not-fetched': 0.1,
                  'shorthand-not-fetched': 0.1, 'two-fetched-blocks': 0.15, 'extra-nodes': 0.3, 'extra-edges': 0.3,
                  'reference-atoms': 0.2, 'explicit-weight': 0.3, 'macro-used': 0.05, 'identifier-omitted': 0.2,
-                 'repeated-section': 0.2, 'bare-shorthand': 0.1, 'block-and-modification': 0.1}),
-    Part('mapping-faults', run_fault, strategy=strategy_fault, examples={'quick': 600, 'thorough': 20000}),
+                 'repeated-section': 0.2, 'bare-shorthand': 0.1, 'block-and-modification': 0.1,
+                 'node-attribute-overrides-identifier': 0.05}),
+    Part('mapping-faults', run_fault, strategy=strategy_fault, examples={'quick': 500, 'thorough': 15000}),
     Part('mapping-float-weights', run_model, strategy=strategy_float, examples={'quick': 48, 'thorough': 400},
          shrink_budget={'quick': 40, 'thorough': 200}),
     Part('mapping-doc-example', run_doc, enumerate=_enum_doc),
